@@ -101,24 +101,10 @@ impl<'c> Slice<'c> {
         core_data_src: &'c [u8],
         external_data_srcs: &'c [(block::ContentId, Cow<'c, [u8]>)],
     ) -> io::Result<Vec<Record<'c>>> {
-        let core_data_reader = BitReader::new(core_data_src);
-
-        let mut external_data_readers = ExternalDataReaders::new();
-
-        for (block_content_id, src) in external_data_srcs {
-            external_data_readers.insert(*block_content_id, src);
-        }
-
         let reference_sequence_context = self.header.reference_sequence_context();
-        let initial_id = self.header.record_counter();
 
-        let mut reader = Records::new(
-            compression_header,
-            core_data_reader,
-            external_data_readers,
-            reference_sequence_context,
-            initial_id,
-        );
+        let mut records =
+            self.read_records(compression_header, core_data_src, external_data_srcs)?;
 
         let slice_reference_sequence = get_slice_reference_sequence(
             &reference_sequence_repository.clone(),
@@ -130,11 +116,7 @@ impl<'c> Slice<'c> {
 
         let substitution_matrix = compression_header.preservation_map().substitution_matrix();
 
-        let mut records = vec![Record::default(); self.header.record_count()];
-
         for record in &mut records {
-            reader.read_record(record)?;
-
             record.header = Some(header);
 
             if !record.bam_flags.is_unmapped() && !record.cram_flags.sequence_is_missing() {
@@ -149,6 +131,41 @@ impl<'c> Slice<'c> {
         }
 
         resolve_mates(&mut records)?;
+
+        Ok(records)
+    }
+
+    /// Reads the records in this slice without resolving reference sequences or mates.
+    ///
+    /// This is enough to know where each record is placed, i.e., its reference sequence ID,
+    /// alignment start, and alignment span.
+    pub(crate) fn read_records<'ch: 'c>(
+        &self,
+        compression_header: &'ch CompressionHeader,
+        core_data_src: &'c [u8],
+        external_data_srcs: &'c [(block::ContentId, Cow<'c, [u8]>)],
+    ) -> io::Result<Vec<Record<'c>>> {
+        let core_data_reader = BitReader::new(core_data_src);
+
+        let mut external_data_readers = ExternalDataReaders::new();
+
+        for (block_content_id, src) in external_data_srcs {
+            external_data_readers.insert(*block_content_id, src);
+        }
+
+        let mut reader = Records::new(
+            compression_header,
+            core_data_reader,
+            external_data_readers,
+            self.header.reference_sequence_context(),
+            self.header.record_counter(),
+        );
+
+        let mut records = vec![Record::default(); self.header.record_count()];
+
+        for record in &mut records {
+            reader.read_record(record)?;
+        }
 
         Ok(records)
     }
